@@ -10,6 +10,7 @@ import ChibiVerif.Spec.PsABI
 import ChibiVerif.Spec.CallRegions
 import ChibiVerif.Lemmas.CallConvLemmas
 import ChibiVerif.Props.C06
+import ChibiVerif.Props.C06Ret
 
 namespace ChibiVerif.Findings.C06
 open ChibiVerif.CallConv
@@ -149,5 +150,69 @@ theorem C06_arg_bool_needs_cast :
   simp [convert] at this
 
 end Args
+
+/-! ### repaired in /repo: `copy_struct_reg` loaded 8 bytes for the second eightbyte of a 12-byte all-float struct (fix 7826748)
+
+`struct { float a, b, c; }` is returned in xmm0 (a, b) and xmm1 (c).  Before the fix the callee tested `ty->size == 4` where
+`copy_ret_buffer` (the caller's side of the same ladder) tests `ty->size == 12`, so it printed `movsd 8(%rdi), %xmm1`: an 8-byte
+load of the 4 bytes at offset 8 — the value arrives (low 32 bits of xmm1) but the load reads 4 bytes beyond the object.  The
+model follows the repaired code; 16-byte structs whose second eightbyte is all-float keep `movsd`. -/
+
+/-- `struct { float a, b, c; }` -/
+def structFFF : ATy := .agg false 12 4 (.cons 0 .flt (.cons 4 .flt (.cons 8 .flt .nil)))
+/-- `struct { float a, b; double c; }` -/
+def structFFD : ATy := .agg false 16 8 (.cons 0 .flt (.cons 4 .flt (.cons 8 .dbl .nil)))
+/-- `struct { double a; float b; }` -/
+def structDF : ATy := .agg false 16 8 (.cons 0 .dbl (.cons 8 .flt .nil))
+
+/-- the second-eightbyte load of `copy_struct_reg` before the fix (`if (ty->size == 4)`) -/
+def secondLoadOld (sz fp : Nat) : String := if sz = 4 then s!"  movss 8(%rdi), %xmm{fp}" else s!"  movsd 8(%rdi), %xmm{fp}"
+
+theorem C06_fixed_copy_struct_reg_12 :
+    copyStructRegLines structFFF = ["  mov %rax, %rdi", "  movsd (%rdi), %xmm0", "  movss 8(%rdi), %xmm1"] ∧
+    secondLoadOld structFFF.size 1 = "  movsd 8(%rdi), %xmm1" ∧
+    copyRetBufferLines structFFF (-16) = ["  movsd %xmm0, -16(%rbp)", "  movss %xmm1, -8(%rbp)"] ∧
+    copyStructRegLines structFFD = ["  mov %rax, %rdi", "  movsd (%rdi), %xmm0", "  movsd 8(%rdi), %xmm1"] ∧
+    copyStructRegLines structDF = ["  mov %rax, %rdi", "  movsd (%rdi), %xmm0", "  movsd 8(%rdi), %xmm1"] ∧
+    retCallee (some structFFF) = .ok (.regs [.xmm0, .xmm1]) ∧ retCaller (some structFFF) = .ok (.regs [.xmm0, .xmm1]) ∧
+    PsABI.ret (some structFFF) = .regs [.xmm0, .xmm1] ∧ PsABI.ret (some structFFD) = .regs [.xmm0, .xmm1] ∧
+    PsABI.ret (some structDF) = .regs [.xmm0, .xmm1] := by decide
+
+/-! ### return values
+
+Not defects: the witness that `C06_return_extension` cannot be strengthened to "%rax is the sign extension to 64 bits" (so a
+caller that reads bits 32..63 of an `int` result is wrong; chibicc's never does: `C06_return_caller`), and the witness of what a
+missing conversion in `return e;` would do. -/
+
+section Ret
+open ChibiVerif.C06Ret ChibiVerif.C06Args ChibiVerif.Spec.IntSpec ChibiVerif.Gen.CommonType
+open ChibiVerif.C01 (Represents descr)
+
+/-- %rax = 0x00000000_ffffffff: the `unsigned` 4294967295 as `mov (%rax), %eax` leaves it -/
+def uintMaxState : X86.State :=
+  { regs := fun r => if r = .rax then 0x00000000_ffffffff#64 else if r = .rbp then 0x7fff_0000#64 else 0, mem := fun _ => 0 }
+
+/-- `int f(void) { return u; }` with `unsigned u = 4294967295`: no instruction is added (`cast(u32, i32)` is empty), %rax
+    represents -1 as an `int` (low 32 bits), and bits 32..63 are zero — not the sign extension of -1. -/
+theorem C06_return_upper_bits_unspecified :
+    Represents .u32 (uintMaxState.get .rax) 4294967295 ∧ retSeq (descr .i32) (descr .u32) = [] ∧ convert .i32 4294967295 = -1 ∧
+    ∃ s', X86.run (calleeRetSeq (descr .i32) (descr .u32)) uintMaxState = some s' ∧
+      s'.get .rax = 0x00000000_ffffffff#64 ∧ Represents .i32 (s'.get .rax) (-1) ∧ s'.get .rax ≠ BitVec.ofInt 64 (-1) := by
+  refine ⟨⟨by decide, by decide⟩, rfl, by decide, ?_⟩
+  obtain ⟨s', h1, h2, _⟩ := epilogue_ok uintMaxState
+  refine ⟨s', h1, h2, ?_, ?_⟩
+  · rw [h2]; exact ⟨by decide, by decide⟩
+  · rw [h2]; decide
+
+/-- without the cast `return c;` in a `_Bool` function would hand the caller the byte 2 for `char c = 2`: the C11 value is 1, and
+    a gcc caller at -O2 uses the byte as an `int` without masking -/
+theorem C06_return_bool_needs_cast :
+    convert .bool 2 = 1 ∧ ¬ LowHolds .bool 2#64 (convert .bool 2) ∧ retSeq (descr .bool) (descr .i8) ≠ [] := by
+  refine ⟨by decide, ?_, by decide⟩
+  intro h
+  have := h.2
+  simp [convert, ITy.size] at this
+
+end Ret
 
 end ChibiVerif.Findings.C06
